@@ -8,13 +8,20 @@ _m(
     "2..16 per axis (odd/even, non-square), numpy or torch backend, 1-3 positions with real shifts a, b (fractional, "
     "+-3x size, halves, integers) and integer shifts s (|s| <= 3x size).  prop: roi 2..16, sampling 0.1-1 A, energy "
     "10 keV-1 MeV, tilts 0 or +-30 mrad, two signed distances in +-40 A (stack a, b, a+b, -a), complex128/complex64 "
-    "waves.  adjoint: object (S<=3, 2..14 per axis), patches (N<=4, 1..8 per axis) real or complex in 32/64 bit, index "
+    "waves; plus a HISTORY of 1-3 further propagator requests on the SAME probe-model instance (learn_probe_tilt on in "
+    "1/4): each names 1-3 distances from the pool [a, b, a+b, -a, -b, -(a+b)] or repeats the previous request exactly "
+    "(1/2), and may first change the tilt (public probe_tilt setter), the energy (probe_params setter) or the sampling "
+    "argument; after every request: unit modulus, P(z) == P(z), P(-z)P(z) == 1 and P(a)P(b) == P(a+b) between "
+    "propagators obtained in DIFFERENT requests under the same current tilt/energy/sampling, and equality with a fresh "
+    "instance constructed with the current parameters.  adjoint: object (S<=3, 2..14 per axis), patches (N<=4, 1..8 per axis) real or complex in 32/64 bit, index "
     "sets random / four distinct values (heavy repeats) / distinct / wrapped windows, int32 or int64.  chain: public "
     "constructors (Dataset4dstem -> PtychographyDatasetRaster.preprocess -> ProbePixelated.from_array, "
     "ObjectPixelated.from_array with random phases -> Ptychography.preprocess), roi 2..12, scan grid 2..4 per axis, "
     "S 1..4 with scalar or per-slice thicknesses 1-30 A, M 1..4, tilts, padding 0..5, pure_phase or potential object, "
     "descan ramps on/off, scan-position jitter 0/0.7/8 px (clipped, patches wrap), probe orthogonalisation on/off, "
-    "float32 or float64 configuration, full or half batch.  proj: same construction, overlap (M<=4, N<=3, roi), measured "
+    "float32 or float64 configuration, full or half batch; for S >= 2 optionally a tilt change through the public "
+    "setter after the first pass, compute_propagator_arrays() and a second pass on the same instance (intensity sums "
+    "again; instance propagators times the inverse propagators of a freshly built problem with the new tilt == 1).  proj: same construction, overlap (M<=4, N<=3, roi), measured "
     "amplitudes exact zeros (0/20/80/100 %) or in [1e-3, 2]*scale.  A case is NON-TRIVIAL when: shift - some shift "
     "component is non-integer on an even-length axis; prop - a propagator carries more than 0.01 rad of phase; adjoint - "
     "the index set contains a repeated index; chain - S >= 2 or M >= 2; proj - the measured amplitudes contain an exact "
@@ -37,6 +44,9 @@ _m(
         "magnitudes match to m*sqrt(M)*1e-9/sqrt(S) (triangle inequality); the tolerance is 4x that bound plus rounding; "
         "non-zero measured amplitudes are >= 1e-3 of the scale and overlaps are random (no exactly vanishing Fourier "
         "coefficient in all modes, where no rescaling can produce the measured amplitude)",
+        "history independence (a propagator obtained after any sequence of requests and setter calls equals the one a "
+        "fresh instance with the same current tilt/energy/sampling/thickness returns) is read out of 'for all inputs': the "
+        "operator is a function of its parameters only; on the clean tree the two are bitwise equal",
         "real-valued arrays are outside the translation domain (the property quantifies over complex arrays; the real "
         "path takes .real, which is not unitary at the Nyquist frequency)",
         "scan grids have >= 2 points per axis and a field of view of >= 1 object pixel (a 1-point axis gives a "
